@@ -116,8 +116,13 @@ def canon(ds):
         v = dict.__getitem__(ds, k)
         ident = tuple(any(v.axes[i] is reg for reg in ds.axes) and v.axes[i] is ds.axes[v.axes[i].name] if v.axes[i].name in ds.dims else False
                       for i in range(len(v.axes)))
-        vs.append((k, tuple(v.dims), common.values_key(v.values), ident))
-    return common.digest((ax, tuple(vs)))
+        vs.append((k, tuple(v.dims), common.values_key(v.values), ident, _keys(v), _keys(v.axes)))
+    # (names of everything kept on the objects are part of the state: something remembered by the library distinguishes two states)
+    return common.digest((ax, tuple(vs), _keys(ds), _keys(ds.axes), tuple(_keys(a) for a in ds.axes)))
+
+
+def _keys(o):
+    return tuple(sorted(k for k in (getattr(o, "__dict__", None) or {}) if isinstance(k, str)))
 
 
 # ------------------------------------------------------------------------------------------
